@@ -48,3 +48,26 @@ void h_c11_collect_dependencies(void)
     __CPROVER_assert(o == (s | w), "c11.collector.dependencies-accumulates-the-possible-reads");
     REACH;
 }
+
+/* part 4: function_t::changes / depends = what the body may write / read, minus locals, minus parameters */
+void w_c11_visit_function(unsigned w, unsigned r, unsigned ch_in, unsigned dep_in, int nparams, int nframe, int f0, int f1, int f2, int f3,
+                          int nloc, int l0, int l1, int l2, unsigned* ch_out, unsigned* dep_out, int* vw, int* vr);
+void w_c11_scope(unsigned declared_in_scope);
+void h_c11_visit_function(void)
+{
+    unsigned w, r, ci, di, co, dO, scope; int np, nf, f[4], nl, l[3], vw, vr;
+    /* the frame the function is declared in (global or template-local) declares an arbitrary set of the symbols */
+    __CPROVER_assume(scope < 256);
+    w_c11_scope(scope);
+    __CPROVER_assume(w < 256 && r < 256 && ci < 256 && di < 256 && np >= 0 && np <= 3 && nf >= np && nf <= 4 && nl >= 0 && nl <= 3);
+    for (int i = 0; i < 4; i++) __CPROVER_assume(f[i] >= 1 && f[i] < 8);
+    for (int i = 0; i < 3; i++) __CPROVER_assume(l[i] >= 1 && l[i] < 8);
+    w_c11_visit_function(w, r, ci, di, np, nf, f[0], f[1], f[2], f[3], nl, l[0], l[1], l[2], &co, &dO, &vw, &vr);
+    unsigned own = 0; /* the function's own variables: its parameters (the first np symbols of the body's frame) and its locals */
+    for (int i = 0; i < 4; i++) if (i < np) own |= 1u << f[i];
+    for (int i = 0; i < 3; i++) if (i < nl) own |= 1u << l[i];
+    __CPROVER_assert(vw == 1 && vr == 1, "c11.visitFunction.the-whole-body-is-walked-once-for-writes-and-once-for-reads");
+    __CPROVER_assert(co == ((ci | w) & ~own), "c11.visitFunction.changes-is-everything-the-body-may-write-except-the-function's-own-locals-and-parameters");
+    __CPROVER_assert(dO == ((di | r) & ~own), "c11.visitFunction.depends-is-everything-the-body-may-read-except-the-function's-own-locals-and-parameters");
+    REACH;
+}
